@@ -10,6 +10,8 @@ Driver for C38. Trace lines of one case (harness/cmd/verifharness/c38.go):
                          server → stack A,  d = directly against the identical stack B
   op <name> <args…>      the operation (history language of s3hist.go), printed once per side
   res ok <fields…> | res err <Kind> [<hex message>] | res panic <hex>
+  op lsvp <b> <n> / op lsp <b> <n>   ListObjectVersions / ListObjects read page by page with MaxKeys n,
+                         following the returned markers; res ok <page>|<page>|…
   checkpoint             the following operations are the full-state sweep (listings, versions,
                          every key and version, tags)
 
@@ -65,6 +67,21 @@ def normRes (op : String) (res : String) : List (String × String) :=
         | [k, vid, latest, dm, sz, _lm, cls] => s!"{k}:{vid}:{latest}:{dm}:{sz}:{canonCls cls}"
         | _ => it
       base ++ [("versions", String.intercalate "," (canon.mergeSort (· ≤ ·)))]
+    else if op == "lsvp" then
+      -- page by page; within a page the order between versions and delete markers is not carried
+      let pages := (rest.headD "~").splitOn "|"
+      base ++ [("version-pages", String.intercalate "|" (pages.map fun pg =>
+        String.intercalate "," (((pg.splitOn ",").map fun it =>
+          match it.splitOn ":" with
+          | [k, vid, latest, dm, sz, _lm, cls] => s!"{k}:{vid}:{latest}:{dm}:{sz}:{canonCls cls}"
+          | _ => it).mergeSort (· ≤ ·))))]
+    else if op == "lsp" then
+      let pages := (rest.headD "~").splitOn "|"
+      base ++ [("listing-pages", String.intercalate "|" (pages.map fun pg =>
+        String.intercalate "," ((pg.splitOn ",").map fun it =>
+          match it.splitOn ":" with
+          | [k, sz, et, cls] => s!"{k}:{sz}:{et}:{canonCls cls}"
+          | _ => it)))]
     else if op == "lsb" then base ++ [("buckets", rest.headD "~")]
     else
       base ++ (rest.map kvTok).filterMap fun (f, v) =>
